@@ -756,7 +756,52 @@ def rule_positions_checked_before_use(ctx: Ctx, rep: Report) -> None:
     rep.floor(rule, 1)
 
 
+def rule_decoders_check_shapes(ctx: Ctx, rep: Report) -> None:
+    """C19.decoders_check_shapes: the psbt classes read their json through the
+    `decode_...` helpers of psbt_utils, which are handed whatever `from_dict`
+    found under a key. A helper asks before it walks: `.items()` of its
+    parameter only past `assert_type(param, Mapping, ...)`; a loop over its
+    parameter, and a subscript of a loop value, only through
+    `list_from_json_array` / the sized-tuple reader -- else a number where a map
+    is expected is `'int' object has no attribute 'items'`, an AttributeError
+    from underneath the library."""
+    rule = "C19.decoders_check_shapes"
+    n = 0
+    for q, fi in sorted(ctx.prog.functions.items()):
+        if not (q.startswith("btclib.psbt.psbt_utils.") and fi.name.startswith("decode_")):
+            continue
+        params = set(fi.params())
+        g = ctx.cfg(fi)
+        asserted = {c.args[0].id: [i for i in g.nodes_containing(c)] for c in own_nodes(fi.node)
+                    if isinstance(c, ast.Call) and call_name(c) in ("assert_type", "fields_from_json_object") and c.args and isinstance(c.args[0], ast.Name)}
+        for c in own_nodes(fi.node):
+            if isinstance(c, ast.Call) and isinstance(c.func, ast.Attribute) and c.func.attr in ("items", "keys", "values") and isinstance(c.func.value, ast.Name) and c.func.value.id in params:
+                n += 1
+                p_ = c.func.value.id
+                ok = p_ in asserted and g.path_avoiding(g.nodes_containing(c), asserted[p_]) is None
+                rep.ob(rule, f"{q}:{p_}.{c.func.attr}()", ok, fi.where(c), f"`{p_}` is asked to be a Mapping first" if ok else
+                       f"`{norm(c)}` walks `{p_}` as a map without asking: a json value of another type is an AttributeError, not the library's refusal")
+        for lp in own_nodes(fi.node):
+            if isinstance(lp, (ast.For, ast.comprehension)) and isinstance(lp.iter, ast.Name) and lp.iter.id in params:
+                n += 1
+                rep.ob(rule, f"{q}:for:{lp.iter.id}", False, fi.where(lp.iter), f"the parameter `{lp.iter.id}` is iterated as it came: a string is a list of its characters, a number a TypeError; read it with list_from_json_array")
+        # subscripts of loop values: v[0] on an element nobody sized
+        for lp in own_nodes(fi.node):
+            if not isinstance(lp, (ast.For, ast.comprehension)):
+                continue
+            tv = {x.id for x in ast.walk(lp.target) if isinstance(x, ast.Name)}
+            scope = lp if isinstance(lp, ast.For) else parent(lp)
+            for x in ast.walk(scope) if scope is not None else []:
+                if isinstance(x, ast.Subscript) and isinstance(x.value, ast.Name) and x.value.id in tv and isinstance(ctx.fold(x.slice, fi.module), int):
+                    n += 1
+                    rep.ob(rule, f"{q}:{norm(x)}", False, fi.where(x), f"`{norm(x)}` subscripts an element of the json as it came: null is a TypeError, a short array an IndexError")
+    rep.ob(rule, "scanned", True, "btclib/psbt/psbt_utils.py:1", f"{n} walks of a json value in the decode_ helpers")
+    rep.floor(rule, 4)
+
+
 RULES = [
+    ("C19.decoders_check_shapes", rule_decoders_check_shapes),
+
     ("C19.lookahead_bounded", rule_lookahead_bounded),
     ("C19.positions_checked_before_use", rule_positions_checked_before_use),
 
